@@ -15,7 +15,7 @@ from itertools import zip_longest
 import pymbolic.primitives as pmbl
 from pymbolic.mapper import Mapper, WalkMapper, CombineMapper, IdentityMapper
 from pymbolic.mapper.stringifier import (
-    StringifyMapper, PREC_NONE, PREC_SUM, PREC_CALL, PREC_PRODUCT
+    StringifyMapper, PREC_NONE, PREC_SUM, PREC_CALL, PREC_PRODUCT, PREC_POWER
 )
 try:
     from fparser.two.Fortran2003 import Intrinsic_Name
@@ -170,6 +170,14 @@ class LokiStringifyMapper(StringifyMapper):
             self.rec_with_force_parens_around(ch, PREC_PRODUCT, *args, **kwargs) for ch in expr.children[1:]
         ]
         return self.parenthesize_if_needed(self.join('*', factors), enclosing_prec, PREC_PRODUCT)
+
+    def map_power(self, expr, enclosing_prec, *args, **kwargs):
+        # Exponentiation is right-associative, so a power in the base needs brackets:
+        # ``(a**b)**c`` is not ``a**b**c``
+        return self.parenthesize_if_needed(
+            self.format('%s**%s', self.rec(expr.base, PREC_CALL, *args, **kwargs),
+                        self.rec(expr.exponent, PREC_POWER, *args, **kwargs)),
+            enclosing_prec, PREC_POWER)
 
     def map_quotient(self, expr, enclosing_prec, *args, **kwargs):
         # Similar to products we drop the conservative parenthesis around products and
